@@ -327,6 +327,18 @@ class Rewriter:
         self.hit('W6', n)
         return text
 
+    # ---- W6c: `for PAT in X.iter().copied() {` -> `for val__ in iter__: X.iter() { let PAT = *val__;` --------
+    def w6c(self, text):
+        m = mask(text)
+        n = 0
+        for mm in reversed(list(re.finditer(r'\bfor\s+(.+?)\s+in\s+([^{;]+?)\.iter\(\)\s*\.copied\(\)\s*\{', m))):
+            pat = text[mm.start(1):mm.end(1)]
+            recv = text[mm.start(2):mm.end(2)].strip()
+            text = text[:mm.start()] + 'for val__ in iter__: %s.iter() {\n                let %s = *val__;' % (recv, pat) + text[mm.end():]
+            n += 1
+        self.hit('W6c', n)
+        return text
+
     # ---- W6p: Iterator::position over `.iter()` -> index loop (std definition of `position`) ---------
     def w6p(self, text):
         m = mask(text)
